@@ -198,6 +198,7 @@ pub fn gen(prop: &str, seed: u64) -> Plan {
         "C15" => gen_c05_like(seed, "C15"),
         "C04" => gen_c04(seed),
         "C09" => gen_c09(seed),
+        "C08" => gen_c08(seed),
         _ => gen_c03(seed),
     }
 }
@@ -438,4 +439,45 @@ fn gen_c09(seed: u64) -> Plan {
         format!("audit_stride={}", b.rng.range(3, 12)),
     ];
     finish(b, until, 900_000)
+}
+
+/// Short sync histories whose every storage write boundary is then crashed (see `vsim crash`).
+fn gen_c08(seed: u64) -> Plan {
+    let mut b = base("C08", seed, 60, 2);
+    b.plan.trace_logging = false;
+    connect_all(&mut b, 2_000);
+    let until = b.rng.range(15_000, 60_000);
+    // a little growth while syncing
+    let mut t = b.rng.range(2_000, 20_000);
+    while t < until {
+        add(&mut b.plan, t, Action::Mine { branch: 0, n: 1 });
+        t += b.rng.range(8_000, 30_000);
+    }
+    let tip = b.plan.initial_blocks;
+    let n_cmds = b.rng.range(1, 3);
+    for i in 0..n_cmds {
+        let at = if i == 0 { b.rng.range(0, 3_000) } else { b.rng.range(3_000, until) };
+        let cmd = if i == 0 {
+            SetCmd::All
+        } else {
+            pick(&mut b.rng, &[SetCmd::All, SetCmd::Partial, SetCmd::Delete])
+        };
+        let mut scripts = random_scripts(&mut b, 3, tip);
+        if i == 0 {
+            for s in scripts.iter_mut() {
+                if b.rng.chance(3, 4) {
+                    s.1 = b.rng.range(0, (tip / 2).max(1));
+                }
+            }
+        }
+        add(&mut b.plan, at, Action::User(UserOp::SetScripts { cmd, scripts }));
+    }
+    b.plan.flags = vec![
+        "honest".into(),
+        "index".into(),
+        "crash".into(),
+        "expect_caught_up".into(),
+        "stop_when_caught_up".into(),
+    ];
+    finish(b, until, 600_000)
 }
